@@ -857,6 +857,24 @@ func (s *tcpSys) Check(e Edge, obs []Obs) []Mismatch {
 			}
 		}
 	}
+	// a request of a user who does not own the allocation (source state of the edge) that had an effect all the same
+	if c, _ := e.A["c"].(string); len(ms) > 0 && c != "" && (name == "Connect" || name == "CreatePermission") {
+		if ss, _ := e.SS.([]any); len(ss) > 0 {
+			if al, _ := ss[0].(map[string]any); al != nil {
+				if ac, _ := al[c].(map[string]any); ac != nil {
+					if live, _ := ac["live"].(bool); live && ac["user"] != e.A["u"] {
+						for _, m := range ms {
+							if m.Kind == "resp+" || m.Kind == "tcp.conn+" || m.Kind == "tcp.extra" || m.Kind == "perm+" {
+								ms = append(ms, Mismatch{"tcp.nonowner", fmt.Sprintf("%v by user %v on the allocation of user %v had an effect (%s)", name, e.A["u"], ac["user"], m.Kind)})
+
+								break
+							}
+						}
+					}
+				}
+			}
+		}
+	}
 
 	return ms
 }
